@@ -307,7 +307,7 @@ func (a *Analysis) HelperResult(name string) types.Type {
 }
 
 func IsContext(t types.Type) bool {
-	n, ok := t.(*types.Named)
+	n, ok := types.Unalias(t).(*types.Named) // type Ctx = context.Context is the same type
 	return ok && n.Obj().Pkg() != nil && n.Obj().Pkg().Path() == "context" && n.Obj().Name() == "Context"
 }
 
